@@ -57,6 +57,13 @@ def exact_inputs(res, tier, seed, wd):
     # dyadic doubles: multiples of 1/4 (den = 4)
     for g in gens.random_graphs(rng, nrand // 4, 3, 8, 14, [[1, 2, 3, 4, 5, 6, 7, 9], [2, 4, 5]]):
         inputs.append((g, 4))
+    # hop-tie graphs: small weight sets on sparse graphs with 8..11 vertices, where equal-weight shortest paths
+    # with different numbers of edges are common (stresses the lexicographic tie-breaking of the tree variants)
+    for k in range(nrand):
+        n = rng.randint(7, 11)
+        m = min(n * (n - 1) // 2, n + rng.randint(0, 5))
+        ws = rng.choice([[1, 2], [1, 2, 3], [1, 2, 3], [2, 3, 5], [1, 1, 2, 4]])
+        inputs.append((gens.rand_graph(rng, n, m, lambda: rng.choice(ws)), 1))
     # dense graphs (|S| >= n branch of the signed variant)
     for n in ((5, 6) if tier == 'quick' else (5, 6, 7)):
         for ws in ([1], [1, 2]):
